@@ -121,11 +121,50 @@ class ArrVal(Ext):
         raise Unsupported("numpy array operator %s" % op)
 
     def sym_len(self, eng):
-        return eng.fresh_int("arrlen")
+        return self._size(eng)
+
+    def _size(self, eng):
+        if getattr(self, "_n", None) is None:
+            self._n = eng.fresh_int("arrsize")
+            x = z3.Int("xs")
+            eng.assume(z3.And(self._n >= 0, (self._n > 0) == z3.Exists([x], self.member(x))))
+        return self._n
+
+    def _element(self, eng, which):
+        """some element of the array (the first, the last, the k-th: which one is NOT known -- the values need not be ascending);
+        precondition of the access: the array is not empty"""
+        cache = self.__dict__.setdefault("_elems", {})
+        if which not in cache:
+            x0 = eng.fresh_int("arr_at_%s" % which)
+            if not eng.branch(self._size(eng) > 0):
+                raise PyRaise(eng.make_exc("IndexError", "index out of bounds of an empty array"))
+            eng.assume(self.member(x0))
+            cache[which] = self.g(x0)
+        return cache[which]
+
+    def _extreme(self, eng, largest):
+        x0, x = eng.fresh_int("arr_ext"), z3.Int("xe")
+        if not eng.branch(self._size(eng) > 0):
+            raise PyRaise(eng.make_exc("ValueError", "zero-size array to reduction operation"))
+        eng.assume(z3.And(self.member(x0), z3.ForAll([x], z3.Implies(self.member(x), self.g(x) <= self.g(x0) if largest else self.g(x) >= self.g(x0)))))
+        return self.g(x0)
+
+    def sym_getitem(self, eng, key):
+        if isinstance(key, int):
+            return self._element(eng, key)
+        raise Unsupported("ndarray[%r]" % (key,))
 
     def sym_getattr(self, eng, name):
         if name == "T":
             return self
+        if name == "size":
+            return self._size(eng)
+        if name == "flat":
+            return self
+        if name in ("min", "max"):
+            return stub(lambda eng, _l=(name == "max"): self._extreme(eng, _l))
+        if name in ("flatten", "ravel", "reshape", "copy"):
+            return stub(lambda eng, *a, **k: self)
         raise Unsupported("ndarray.%s" % name)
 
     def forall(self, pred):
